@@ -140,6 +140,8 @@ def show(v: Any) -> str:
     if k == "partial":
         args = [show(v[1])] + [show(a) for a in v[2]] + [f"{kk}={show(vv)}" for kk, vv in v[3]]
         return f"partial({', '.join(args)})"
+    if k == "phi":
+        return "(" + " | ".join(show(x) for x in v[1]) + ")"
     if k == "star":
         return "*" + show(v[1])
     if k == "fstr":
@@ -1647,7 +1649,28 @@ class Interp:
             return self.call(cv[1], tuple(cv[2]) + tuple(args), tuple(cv[3]) + tuple(kwargs), node, st, out, None)
         elif cv == ("ext", "functools.partial") and args and not any(a[0] == "star" for a in args) and not any(k == "**" for k, _ in kwargs):
             return [(("partial", args[0], tuple(args[1:]), tuple(kwargs)), st)]
-        elif cv[0] == "attr" and cv[2] == "update" and len(args) == 1 and not kwargs and args[0][0] == "dict" and args[0][1] \
+        elif cv == ("builtin", "map") and len(args) == 2 and not kwargs and args[0][0] in ("func", "closure", "builtin", "ext", "attr", "lambda"):
+            # map(f, xs) is the generator (f(x) for x in xs): same comprehension term, f applied to the element
+            fn_v = args[0]
+            if fn_v[0] == "attr" and fn_v[1] in (("builtin", "str"), ("builtin", "bytes")):
+                elt_res = [(("call", ("attr", ("elem", args[1]), fn_v[2]), (), (), self.tag(node)), st)]  # map(str.strip, xs) -> x.strip()
+            elif fn_v[0] == "lambda":
+                elt_res = []
+            else:
+                sub_out = Outcome()
+                elt_res = self.call(fn_v, (("elem", args[1]),), (), node, st, sub_out, None)
+                if sub_out.exc:
+                    elt_res = []
+            if len(elt_res) == 1:
+                return [(("comp", "gen", elt_res[0][0], args[1], ()), elt_res[0][1])]
+            if len(elt_res) > 1:
+                # the element function has several paths (an `if` inside a helper): the element is one of their values
+                vals_ = []
+                for v_, _s in elt_res:
+                    if v_ not in vals_:
+                        vals_.append(v_)
+                return [(("comp", "gen", vals_[0] if len(vals_) == 1 else ("phi", tuple(vals_)), args[1], ()), st)]
+        if meta is None and cv[0] == "attr" and cv[2] == "update" and len(args) == 1 and not kwargs and args[0][0] == "dict" and args[0][1] \
                 and all(k_ is not None and k_[0] == "const" for k_, _v in args[0][1]):
             # m.update({"k": v, ...}) stores every item like m["k"] = v does (MutableMapping.update goes through __setitem__)
             st_ = st
